@@ -24,6 +24,7 @@ Vec(e, f) ==
   [fam |-> f,
    expr |-> Render(e, "min", 0),
    variants |-> <<Render(e, "full", 0), Render(e, "min", 1), Render(e, "full", 2), Render(e, "min", 2), Render(e, "min", 3), Render(e, "full", 3)>>
+                \o (IF RenderTight(e) # Render(e, "min", 0) THEN <<RenderTight(e)>> ELSE << >>)     \* no blank between a number and an operator name
                 \o (IF Len(Toks(e, "min")) <= WsEach     \* whitespace at each single token boundary in turn
                     THEN LET n == Len(Toks(e, "min")) - 1 IN
                          [i \in 1..(3 * n) |-> RenderAt(e, ((i - 1) % n) + 1, IF i <= n THEN " " ELSE IF i <= 2 * n THEN "\n" ELSE " \t\r\n ")]
